@@ -26,6 +26,7 @@ Definition run_model (m : Z) (params : list Z) (rows : list (list Z)) : list (li
   | 108%Z => run_casts params rows
   | 117%Z => run_bindgen_cpp params rows
   | 118%Z => run_header params rows
+  | 201%Z => run_fwd params rows
   | 204%Z => run_group_impl params rows
   | 217%Z => run_split_args params rows
   | _ => [[-3]%Z]
